@@ -104,16 +104,20 @@ def run(chk):
     for x in texts:
         try: first[x] = str(create_pattern_object(x, version='2.1'))
         except Exception: pass
+    local = {}
     for x in list(first)[::3]:
         try:
             equivalent_patterns(x, x); equivalent_patterns(x, texts[0])
             m = create_pattern_object(x, version='2.1')
             if hasattr(m, 'operands') and isinstance(m.operands, list): m.operands.append(m.operands[0])          # a caller extending its own model
+            # ... and read again at once (a bounded memo of recent parses would still hold this text now, whatever its size and whatever is parsed later)
+            local[x] = str(create_pattern_object(x, version='2.1'))
         except Exception: pass
 
     def hist_check(x):
         try: again = str(create_pattern_object(x, version='2.1'))
         except Exception as ex: return ('history#parse still accepts the text', f'{x}: {type(ex).__name__} after equivalence checks on the same text', {'pattern': x})
+        if x in local and local[x] != first[x]: again = local[x]
         if again != first[x]: return ('history#parse o print unchanged by earlier work on the same text', f'{x} printed as {first[x]} at first and as {again} after equivalence checks / model edits on the same text', {'pattern': x})
     chk.bounded('history: parse o print before and after equivalence checks and model edits on the same text', list(first), hist_check, classify=lambda x: x,
                 bound='every generated pattern; every third one was normalised by equivalent_patterns and had its parsed model extended in between')
